@@ -326,6 +326,29 @@ def run(ctx: Ctx) -> None:
     ctx.ob("R9.5", "lexer:LexerTokenStream.__init__|CRLF handling", norm_ok or not cr_enders,
            msg=f"the text is lexed as given and {cr_enders} can end in a carriage return: with CRLF line ends doc comments detach and '\\r' ends up in doc strings and include names", node=li, mod=lex)
 
+    # ---------------------------------------------------------------- R9.8
+    # The look-ahead accessors answer one question each: "is the next token of one of these TYPES" (token_if,
+    # token_if_in_set, token_if_not, token_peek_if) or "does it have one of these TEXTS" (token_if_val).  An identifier may
+    # spell a token type (`ELLIPSIS`, `DBL_COLON`, `NAME`), so an accessor that looks at both attributes takes such an
+    # identifier for the punctuator.  Every membership test against the accessor's argument reads exactly its attribute.
+    ctx.rule("R9.8", "look-ahead accessors compare exactly one token attribute with their argument: the type (token_if_val: the text)", minimum=4)
+    for acc, want_attr in (("token_if", "type"), ("token_if_in_set", "type"), ("token_if_not", "type"), ("token_peek_if", "type"), ("token_if_val", "value")):
+        try:
+            afn = lex.func(f"TokenStream.{acc}")
+        except AnalysisError:
+            continue
+        params = {a.arg for a in afn.args.args[1:]} | ({afn.args.vararg.arg} if afn.args.vararg else set())
+        bad = None
+        seen_ = 0
+        for x in walk_local(afn):
+            if isinstance(x, ast.Compare) and len(x.ops) == 1 and isinstance(x.ops[0], (ast.In, ast.NotIn)) and isinstance(x.comparators[0], ast.Name) and x.comparators[0].id in params:
+                seen_ += 1
+                if not (isinstance(x.left, ast.Attribute) and x.left.attr == want_attr):
+                    bad = x
+        if seen_:
+            ctx.ob("R9.8", f"lexer:TokenStream.{acc}|decides on the token's {want_attr} only", bad is None,
+                   msg=f"`{short(bad, 50) if bad is not None else ''}`: {acc} also accepts a token by its {'text' if want_attr == 'type' else 'type'}: an identifier spelled like a token type (a parameter called ELLIPSIS, a name DBL_COLON) is taken for that token", node=bad or afn, mod=lex, nontrivial=False)
+
     # ---------------------------------------------------------------- R9.6
     ctx.rule("R9.6", "line splice: a (backslash, NEWLINE) pair is removed wherever it falls in the buffer and nothing else is; the line goes on after it", minimum=2)
     # decided by interpreting the buffer fill over every short script of raw tokens, started with an empty buffer and with
